@@ -224,8 +224,64 @@ def gen_base(rng):
             else:
                 entries.append([rel, "file", "B%s%d" % (rel.replace("/", "_"), rng.randint(0, 3)), rng.random() < 0.3, versioned])
     fill("", 0, True)
+    if rng.random() < 0.4:
+        # a chain of directories with files two and more levels below its top
+        v = rng.random() < 0.9
+        entries.append(["k", "directory", "", False, v])
+        entries.append(["k/s", "directory", "", False, v])
+        entries.append(["k/s/g", "file", "Bk_s_g%d" % rng.randint(0, 3), rng.random() < 0.3, v])
+        if rng.random() < 0.5:
+            entries.append(["k/s/t", "directory", "", False, v])
+            entries.append(["k/s/t/h", "file", "Bk_s_t_h%d" % rng.randint(0, 3), False, v and rng.random() < 0.8])
+        if rng.random() < 0.5:
+            entries.append(["k/m", "file", "Bk_m%d" % rng.randint(0, 3), False, v])
     entries.sort()
     return entries
+
+
+def gen_deep_case(rng, fmt):
+    """a directory with versioned files two and more levels below it is renamed / re-parented
+    (to another name, below an existing directory, below a newly created directory), optionally
+    with other changes inside it"""
+    entries = [["k", "directory", "", False, True], ["k/s", "directory", "", False, True],
+               ["k/s/g", "file", "Bg%d" % rng.randint(0, 3), rng.random() < 0.3, True],
+               ["o", "directory", "", False, True], ["o/f", "file", "Bof", False, True]]
+    if rng.random() < 0.6:
+        entries += [["k/s/t", "directory", "", False, True], ["k/s/t/h", "file", "Bh%d" % rng.randint(0, 3), False, True]]
+    if rng.random() < 0.5:
+        entries.append(["k/m", "file", "Bm", False, True])
+    if rng.random() < 0.4:
+        entries.append(["k/s/u", "file", "Bu", False, False])
+    entries.sort()
+    handles = [""] + [e[0] for e in entries]
+    H = handles.index
+    nh = len(handles)
+    ops = []
+    which = rng.choice(["k", "k", "k/s"])
+    how = rng.choice(["rename", "into-existing", "into-new", "into-new-nested"])
+    name = rng.choice(["e", "f", os.path.basename(which)])
+    if how == "rename":
+        ops.append(["adjust_path", "e" if name == os.path.basename(which) else name, H(os.path.dirname(which)), H(which)])
+    elif how == "into-existing":
+        ops.append(["adjust_path", name, H("o"), H(which)])
+    else:
+        fid = "fid1"
+        ops.append(["new_directory", "n", 0, fid])
+        parent = nh
+        nh += 1
+        if how == "into-new-nested":
+            ops.append(["new_directory", "nn", parent, "fid2"])
+            parent = nh
+            nh += 1
+        ops.append(["adjust_path", name, parent, H(which)])
+    r = rng.random()
+    if r < 0.3:
+        ops += [["delete_contents", H("k/s/g")], ["create_file", "M%d" % rng.randint(0, 9), H("k/s/g")]]
+    elif r < 0.5:
+        ops.append(["adjust_path", "g2", H("k/s"), H("k/s/g")])
+    elif r < 0.65:
+        ops.append(["new_file", "new", H("k/s"), "N%d" % rng.randint(0, 9), "fid9", None])
+    return entries, handles, ops
 
 
 def gen_ops(rng, entries, n, fmt):
@@ -293,9 +349,11 @@ def gen_ops(rng, entries, n, fmt):
         return rng.choice(cands)
 
     def new_only_chain(i):
+        seen = set()
         while i != 0:
-            if not st[i]["new"]:
+            if not st[i]["new"] or i in seen:
                 return False
+            seen.add(i)
             i = st[i]["parent"]
         return True
 
@@ -313,13 +371,13 @@ def gen_ops(rng, entries, n, fmt):
             if k < 0.55:
                 ex = rng.choice([None, None, True, False]) if f else None
                 ops.append(["new_file", name, p, "N%d" % rng.randint(0, 9), f, ex])
-                st[nh] = dict(kind="file", versioned=f is not None, basev=False, new=True, parent=p, xset=ex is not None)
+                st[nh] = dict(kind="file", versioned=f is not None, basev=False, new=True, parent=p, xset=ex is not None, name=name)
             elif k < 0.85:
                 ops.append(["new_directory", name, p, f])
-                st[nh] = dict(kind="directory", versioned=f is not None, basev=False, new=True, parent=p)
+                st[nh] = dict(kind="directory", versioned=f is not None, basev=False, new=True, parent=p, name=name)
             else:
                 ops.append(["new_symlink", name, p, "g%d" % rng.randint(0, 3), f])
-                st[nh] = dict(kind="symlink", versioned=f is not None, basev=False, new=True, parent=p)
+                st[nh] = dict(kind="symlink", versioned=f is not None, basev=False, new=True, parent=p, name=name)
             nh += 1
         elif r < 0.45:        # remove
             c = [i for i in tree_live() if not (st[i]["kind"] != "directory" and st[i].get("haskids"))]
@@ -387,17 +445,29 @@ def gen_ops(rng, entries, n, fmt):
                 continue
             i = rng.choice(c)
             ops.append(["unversion_file", i]); st[i]["unversioned"] = True; st[i]["idtouched"] = True
-        else:                 # rename a new entry
+        else:                 # rename / move a new entry
             c = [i for i, s in st.items() if s["new"]]
             if not c:
                 continue
             i = rng.choice(c)
-            pc = [j for j, s in st.items() if not s["new"] and s["kind"] == "directory" and not s.get("deleted")
-                  and (fmt == "git" or not live_versioned(i) or live_versioned(j))]
+            x = rng.random()
+            if x < 0.4:
+                pc = [st[i]["parent"]]           # in place (possibly onto the name of a sibling)
+            elif x < 0.9:
+                pc = [j for j, s in st.items() if not s["new"] and s["kind"] == "directory" and not s.get("deleted")]
+            else:
+                pc = [j for j, s in st.items() if s["new"] and s["kind"] == "directory" and j != i]   # may close a loop of new entries
+            pc = [j for j in pc if (fmt == "git" or not live_versioned(i) or live_versioned(j)) and not st[j].get("missing")
+                  and not (st[j]["new"] and st[j]["kind"] != "directory")]
             if not pc:
                 continue
             p = rng.choice(pc)
-            ops.append(["adjust_path", name, p, i]); st[i]["parent"] = p
+            if rng.random() < 0.3:
+                sib = [s2 for j2, s2 in st.items() if s2.get("new") and s2.get("parent") == p and j2 != i and s2.get("name")]
+                if sib:
+                    name = rng.choice(sib)["name"]
+            ops.append(["adjust_path", name, p, i]); st[i]["parent"] = p; st[i]["name"] = name
+            st[p]["haskids"] = True
     return handles, ops
 
 
@@ -443,7 +513,10 @@ def build_case(seed_tuple):
     rng = random.Random(repr(tuple(seed_tuple)))
     fmt, stream = seed_tuple[1], seed_tuple[3]
     entries = gen_base(rng)
-    if stream == "wild":
+    if stream == "deep":
+        entries, handles, ops = gen_deep_case(rng, fmt)
+        stream = "pre"
+    elif stream == "wild":
         handles, ops = gen_wild_ops(rng, entries, rng.randint(1, 6))
     else:
         handles, ops = gen_ops(rng, entries, rng.randint(1, 7), fmt)
@@ -997,6 +1070,8 @@ def _cases(ctx, n):
             stream = "wild" if r in (3, 13) else "lazy" if r in (5, 9, 15, 19) else "pre"
             out.append(build_case((ctx.seed, fmt, k, stream)))
             i += 1
+        for k in range(max(12, n // 12)):
+            out.append(build_case((ctx.seed, fmt, k, "deep")))
     return out
 
 
